@@ -120,6 +120,10 @@ DECL_MACROS = {"CDS_LIST_HEAD": "struct cds_list_head", "DEFINE_URCU_WAIT_NODE":
 LIST_LOOPS = {"cds_list_for_each_entry_safe": (0, 1, 2), "cds_list_for_each_entry": (0, None, 1),
               "cds_list_for_each_entry_reverse": (0, None, 1),
               "cds_wfs_for_each_blocking_safe": (1, 2, 0), "__cds_wfcq_for_each_blocking_safe": (2, 3, 0)}
+# iteration macros whose `first` / `next` are lock-free accesses of the library itself: expanded as their definition in
+# urcu/wfstack.h / urcu/wfcqueue.h says (first(container…), next(container…, cursor)), calling the static implementations
+LOOP_FUNCS = {"cds_wfs_for_each_blocking_safe": ("_cds_wfs_first", "_cds_wfs_next_blocking", False),
+              "__cds_wfcq_for_each_blocking_safe": ("___cds_wfcq_first_blocking", "___cds_wfcq_next_blocking", True)}
 
 
 class Unsupported(Exception):
@@ -955,16 +959,26 @@ class Translator:
                 body = self.stmt(s[3])
             finally:
                 self.loop_depth -= 1
+            cont_args = [a for j, a in enumerate(args) if j >= hi and j not in (ci, ti) and not (j > hi and a[0] == "id" and a[1] not in self.locals and j == len(args) - 1)]
+            if s[1] in LOOP_FUNCS:
+                ffn, nfn, next_takes_container = LOOP_FUNCS[s[1]]
+                p1, fv = self.call(("call", ffn, cont_args), want_value=True)
+                nargs = (cont_args if next_takes_container else []) + [cur]
+                p2, nv = self.call(("call", nfn, nargs), want_value=True)
+                first_stmts = p1 + [".assign %s (%s)" % (lstr(it), fv)]
+                next_stmts = p2 + [".assign %s (%s)" % (lstr(it), nv)]
+                pre = []
+            else:
+                first_stmts = [".prim (some %s) (.ext %s) %s" % (lstr(it), lstr(s[1] + ".first"), hv)]
+                next_stmts = [".prim (some %s) (.ext %s) (%s ++ [.var %s])" % (lstr(it), lstr(s[1] + ".next"), hv, lstr(cur[1]))]
             head = [".assign %s (.var %s)" % (lstr(cur[1]), lstr(it)),
-                    ".ifte (.var %s) (.skip) (.brk)" % lstr(cur[1]),
-                    ".prim (some %s) (.ext %s) (%s ++ [.var %s])" % (lstr(it), lstr(s[1] + ".next"), hv, lstr(cur[1]))]
+                    ".ifte (.var %s) (.skip) (.brk)" % lstr(cur[1])] + next_stmts
             if ti is not None:
                 tv = args[ti]
                 if tv[0] != "id" or tv[1] not in self.locals:
                     raise Unsupported("list temporary is not a local")
                 head.append(".assign %s (.var %s)" % (lstr(tv[1]), lstr(it)))
-            return pre + [".prim (some %s) (.ext %s) %s" % (lstr(it), lstr(s[1] + ".first"), hv),
-                          ".loop (%s)" % self.blk(head + body)]
+            return pre + first_stmts + [".loop (%s)" % self.blk(head + body)]
         if k == "goto":
             self.goto_labels.add(s[1])
             return [".assign %s (.lit 1)" % lstr("_goto_" + s[1])] + ([".brk"] if self.loop_depth > 0 else [])
